@@ -198,6 +198,22 @@ def resolve(vm, callee, subst):
         cands = mir.by_impl.get((ci.trait, head, ci.method), [])
         # most specific first: impls whose trait arguments mention no impl generic (`From<Array> for Val` before `From<S> for Val`)
         cands = sorted(cands, key=lambda f: sum(1 for ta in f.impl.trait_args if any(re.search(r'\b' + re.escape(g) + r'\b', ta) for g in f.impl.generics)))
+        # macro-generated `impl<T: Into<X>> From<T> for S` families: pick the instance whose bound T: Into<X> the argument meets
+        if any(getattr(f.impl, 'bound_into', None) for f in cands) and ci.targs:
+            arg = ci.targs[0]
+            def meets(x, depth=0):
+                if x == arg: return True
+                if depth > 3: return False
+                for g in mir.by_impl.get(('From', type_head(x)[0], 'from'), []):
+                    gi = g.impl
+                    if getattr(gi, 'bound_into', None):
+                        if meets(gi.bound_into, depth + 1): return True
+                    elif gi.trait_args and unify(gi.trait_args[0], arg, set(gi.generics), {}): return True
+                return False
+            exact = [f for f in cands if getattr(f.impl, 'bound_into', None) == arg]
+            rest = [f for f in cands if getattr(f.impl, 'bound_into', None) and f not in exact and meets(f.impl.bound_into)]
+            plain = [f for f in cands if not getattr(f.impl, 'bound_into', None)]
+            cands = plain + exact + rest
         for f in cands:
             out = {}
             im = f.impl
@@ -286,7 +302,7 @@ def _blanket_ok(vm, im, selfty):
     m = re.search(r'impl<\s*(\w+)\s*:\s*([\w:]+)', line)
     if not m: return True
     bound = m.group(2).split('::')[-1]
-    if bound in _CLOSURE_TRAITS: return selfty.startswith('{closure@') or selfty.startswith('fn(') or selfty.startswith('&{closure@')
+    if bound in _CLOSURE_TRAITS: return selfty.lstrip('&').startswith(('{closure@', 'fn(', 'for<', 'unsafe fn('))
     if bound in vm.mir.src.traits:
         head = type_head(selfty)[0]
         return any(i2.trait == bound and type_head(i2.self_ty)[0] == head for i2 in vm.mir.src.impls.values())
